@@ -1,4 +1,5 @@
 import SteelVerif.C06.Props
+import SteelVerif.C06.Rollback
 open SteelVerif.C06
 #print axioms scan_complete
 #print axioms get_add
@@ -7,3 +8,14 @@ open SteelVerif.C06
 #print axioms recycleLoop_closed
 #print axioms recycle_safe
 #print axioms recycle_frees_only_shadowed
+#print axioms rollback_restores_partial
+#print axioms rollback_restores_fl
+#print axioms rollback_restores_reachable
+#print axioms rollback_fails_after_slot_reuse
+#print axioms not_rollbackRestores
+#print axioms wf_empty
+#print axioms add_wf
+#print axioms add_wf_general
+#print axioms rollBack_wf
+#print axioms rollBack_freeOK
+#print axioms reachable_wf
